@@ -161,6 +161,34 @@ func (e *Exec) viewEq(a, b view) *smt.Term {
 			return smt.Eq(ta, tb)
 		}
 	}
+	// concatenations: cancel syntactically identical leading / trailing parts
+	if a.Off == c0 && b.Off == c0 && e.path.concats != nil {
+		pa, pb := e.partsOf(a), e.partsOf(b)
+		if len(pa) > 1 || len(pb) > 1 {
+			for len(pa) > 0 && len(pb) > 0 && pa[0] == pb[0] {
+				pa, pb = pa[1:], pb[1:]
+			}
+			for len(pa) > 0 && len(pb) > 0 && pa[len(pa)-1] == pb[len(pb)-1] {
+				pa, pb = pa[:len(pa)-1], pb[:len(pb)-1]
+			}
+			switch {
+			case len(pa) == 0 && len(pb) == 0:
+				return smt.True
+			case len(pa) == 0 || len(pb) == 0:
+				rest := pa
+				if len(rest) == 0 {
+					rest = pb
+				}
+				var cs []*smt.Term
+				for _, r := range rest {
+					cs = append(cs, smt.Eq(r.Len, c0))
+				}
+				return smt.And(cs...)
+			case len(pa) == 1 && len(pb) == 1:
+				return e.viewEq(pa[0], pb[0])
+			}
+		}
+	}
 	// one side of concrete length: expand
 	if b.Len.IsConst() && !a.Len.IsConst() {
 		a, b = b, a
